@@ -21,7 +21,7 @@ from torch import nn
 from torch.fx.node import Node, map_arg
 
 from ..par import run_tasks
-from ..report import CONCRETE, INCONCLUSIVE, Report, describe_function
+from ..report import CONCRETE, INCONCLUSIVE, Report, describe_function, lazy
 from ..sym.runner import discharge
 from ..sym.scalar import Ctx, SBool, SReal, _sreal
 from ..sym.tensor import Session
@@ -102,6 +102,20 @@ class FloatFeedsOnlyBool(nn.Module):
         return torch.where(m, h, -h).sum()
 
 
+class IntFirst(nn.Module):
+    """the FIRST node of the tracked graph is a non-float tensor (an integer index input used before any parameter or float input)"""
+
+    def __init__(self) -> None:
+        super().__init__()
+        self.e = nn.Embedding(9, 6)
+        self.p = nn.Embedding(5, 6)
+
+    def forward(self, idx: torch.Tensor) -> torch.Tensor:
+        pos = torch.arange(idx.shape[-1])
+        j = idx.unsqueeze(0).squeeze(0)
+        return (self.e(j) + self.p(pos)).tanh().sum()
+
+
 class DynSlice(nn.Module):
     """slices by a shape-derived size; called with two different lengths so that TorchDynamo re-traces with a symbolic
     size: the tracked graph then holds non-float nodes (size placeholder, floordiv) INSIDE slice objects"""
@@ -153,6 +167,7 @@ MODULES: Dict[str, Tuple[Callable[[], nn.Module], Callable[[], List[torch.Tensor
     "views": (Views, lambda: [torch.randn(6, 6)]), "rotate_half": (RotateHalf, lambda: [torch.randn(4, 6)]),
     "cat_views": (CatViews, lambda: [torch.randn(36)]), "kw_tensors": (KwTensors, lambda: [torch.randn(36)]),
     "int_index": (IntIndex, lambda: [torch.randn(4, 6)]), "two_float_to_bool": (TwoFloatToBool, lambda: [torch.randn(4, 6)]),
+    "int_first": (IntFirst, lambda: [torch.randint(0, 9, (5,))]),
     "float_feeds_only_bool": (FloatFeedsOnlyBool, lambda: [torch.randn(4, 6)]), "multi_out": (MultiOut, lambda: [torch.randn(4, 6)]),
     "residual": (Residual, lambda: [torch.randn(36)]), "dyn_slice": (DynSlice, lambda: [[torch.randn(6, 6)], [torch.randn(8, 6)]]), "embed": (Embed, lambda: [torch.randint(0, 9, (5,))]),
 }
@@ -568,8 +583,8 @@ def run(rep: Report, only: str = "") -> None:
     if only:
         tasks = [t for t in tasks if only in repr(t[1]) or only in t[0].__name__]
     rep.extend(run_tasks(tasks))
-    rep.functions = [describe_function(f) for f in (uts._prune, uts.prune_same_scale_tensors, uts.prune_non_float_tensors, uts.prune_selected_nodes,
-                                                    uts._metrics_same_scale, uts._directions_same_scale, uts._filter_float_tensors)]
+    rep.functions = [describe_function(f) for f in (lazy(lambda: uts._prune), lazy(lambda: uts.prune_same_scale_tensors), lazy(lambda: uts.prune_non_float_tensors), lazy(lambda: uts.prune_selected_nodes),
+                                                    lazy(lambda: uts._metrics_same_scale), lazy(lambda: uts._directions_same_scale), lazy(lambda: uts._filter_float_tensors))]
     rep.bounds = {"graphs": f"{len(MODULES)} tracked graphs from the real track_scales (views/reshapes/negations, rotate-half and stack list arguments, keyword tensor arguments, integer index "
                             "tensors, bool masks, multi-output, residual, embedding + cross-entropy), forward-only and forward+backward; enumerated",
                   "same-scale": "every node's forward and backward mean-|x| a symbolic real in [0, 1e6], rtol symbolic in (0,1) (thorough also the three given values); all comparison outcomes "
